@@ -178,6 +178,8 @@ def _chunk(args):
         'viol': [], 'errors': [], 'samples': [], 'subs': collections.Counter(), 'digests': {},
         'known_hits': collections.Counter(), 'runs_with_fault': 0, 'tape_len': 0, 'timeouts': [],
     }
+    hist_before = list(_W.setdefault('history', []))
+    _W['history'].append((start, count))
     for i in range(start, start + count):
         seed = derive_seed(base_seed, i, prop)
         tape = Tape(seed)
@@ -222,7 +224,10 @@ def _chunk(args):
                     unknown.append(v)
             if unknown and len(agg['viol']) < 5:
                 agg['viol'].append({'index': i, 'seed': seed, 'tape': list(tape.values),
-                                    'violations': [v.to_json() for v in unknown]})
+                                    'violations': [v.to_json() for v in unknown],
+                                    # every run this worker process executed before this one (the unchanged tree keeps no state
+                                    # between runs; code under test that does can only be replayed together with its history)
+                                    'history': hist_before + [(start, i - start + 1)]})
     agg['inter'] = list(agg['inter'])
     agg['work'] = list(agg['work'])
     return agg
@@ -396,7 +401,28 @@ def do_replay(prop, tier, path, quiet=False):
     with open(path) as f:
         rp = json.load(f)
     _worker_init(prop, tier)
-    out = _replay_job(rp['tape'])
+    if rp.get('history_needed'):
+        # the violation depends on state the code under test carried over from earlier runs in the same process
+        mod = _W['mod']
+        ranges = [tuple(x) for x in rp['history']]
+        n = sum(c for _, c in ranges)
+        print('replaying %d earlier runs of the worker process first' % (n - 1))
+        last = None
+        for st, cnt in ranges:
+            for i in range(st, st + cnt):
+                tape = Tape(derive_seed(rp['base_seed'], i, prop), keep_labels=(i == rp['run_index']))
+                try:
+                    last = (run_once(mod, prop, tape, tier), tape)
+                except HarnessTimeout:
+                    last = None
+        if last is None:
+            print('replay: the last run of the history did not complete')
+            return 0
+        r_, tape_ = last
+        out = {'violations': [v.to_json() for v in r_.violations if v.prop == prop], 'trace': r_.trace[-400:], 'digest': r_.digest(),
+               'labels': [], 'sample': r_.sample}
+    else:
+        out = _replay_job(rp['tape'])
     known = load_known(prop)
     want = rp.get('violation', {}).get('class')
     wsig = rp.get('violation', {}).get('sig')
@@ -585,8 +611,37 @@ def main(argv=None):
                     code, out = 2, repr(e2)
                 m = re.search(r'replay digest=(\S+)', out)
                 if code != 1 or not m or m.group(1) != rep['digest']:
-                    print('HARNESS-ERROR nondeterministic: replay of %s did not reproduce (exit %s)\n%s' % (path, code, out[-2000:]))
-                    exit_code = 2
+                    # Not reproducible from its own choices. Before calling the harness nondeterministic: does it reproduce together
+                    # with the runs its worker process had executed before (state kept in process-global variables of the code
+                    # under test)? The unchanged tree keeps none (tools/selftest_determinism.py), a change to it may.
+                    hist = item.get('history') or []
+                    nhist = sum(c for _, c in hist)
+                    ok_hist = False
+                    if hist and nhist <= 6000:
+                        with open(path) as f:
+                            rpj = json.load(f)
+                        rpj.update({'history': hist, 'history_needed': True, 'tape': item['tape'], 'violation': v,
+                                    'note': 'reproduces only after the %d runs that preceded it in its worker process' % (nhist - 1)})
+                        with open(path, 'w') as f:
+                            json.dump(rpj, f, indent=1, default=str)
+                        try:
+                            code2, out2 = fresh_replay(prop, tier, path, timeout=3000)
+                        except Exception as e2:
+                            code2, out2 = 2, repr(e2)
+                        ok_hist = code2 == 1
+                    if not ok_hist:
+                        print('HARNESS-ERROR nondeterministic: replay of %s did not reproduce (exit %s)\n%s' % (path, code, out[-2000:]))
+                        exit_code = 2
+                        continue
+                    print('violation class=%s sig=%s' % (v['class'], v['sig']))
+                    print('  detail: %s' % v['detail'][:1000])
+                    print('  seed=%d run_index=%d: reproduces only together with the %d runs its worker process executed before it '
+                          '(the code under test keeps state between runs in process-global variables); the replay file names them'
+                          % (item['seed'], item['index'], nhist - 1))
+                    print('VIOLATION property=%s replay=%s' % (prop, path))
+                    replay_paths.append(path)
+                    if exit_code == 0:
+                        exit_code = 1
                     continue
                 print('violation class=%s sig=%s' % (vv[0]['class'], vv[0]['sig']))
                 print('  detail: %s' % vv[0]['detail'][:1000])
